@@ -263,6 +263,53 @@ fn webauthn(cfg: &Cfg, rep: &mut Report, h: u64) {
         a.payload.truncate(n);
         reject(rep, "payload-short", &a);
     }
+    // key data as documented for the verifier contract: the 65-byte key followed by a credential id
+    // of any length; the same key preceded by a byte, or cut short, is another (or no) key
+    for n in [1usize, 16, 64, 300] {
+        let mut a = clone(&g);
+        let id: Vec<u8> = (0..n).map(|_| rng.below(256) as u8).collect();
+        a.key.extend_from_slice(&id);
+        accept(rep, "key-followed-by-credential-id", &a);
+    }
+    {
+        let mut a = clone(&g);
+        a.key.insert(0, 0x04);
+        reject(rep, "key-shifted-by-one", &a);
+        for n in [0usize, 1, 33] {
+            let mut a = clone(&g);
+            a.key.truncate(n);
+            reject(rep, "key-short", &a);
+        }
+        // another key in front, the genuine one behind it
+        let mut a = clone(&g);
+        let mut k2 = loop {
+            if let Ok(s) = p256::ecdsa::SigningKey::from_slice(&rng.bytes::<32>()) {
+                break s.verifying_key().to_encoded_point(false).as_bytes().to_vec();
+            }
+        };
+        k2.extend_from_slice(&g.key);
+        a.key = k2;
+        reject(rep, "genuine-key-behind-another", &a);
+    }
+    // signature data that is not the XDR of the documented structure
+    {
+        let sd = WebAuthnSigData { signature: BytesN::from_array(e, &g.signature), authenticator_data: Bytes::from_slice(e, &g.auth_data), client_data: Bytes::from_slice(e, &g.client_data) };
+        let good_xdr: Vec<u8> = sd.to_xdr(e).iter().collect();
+        let mut bad: Vec<(&str, Vec<u8>)> = vec![("sigdata-empty", vec![]), ("sigdata-random", (0..good_xdr.len()).map(|_| rng.below(256) as u8).collect())];
+        for cut in [1usize, 4, 8, good_xdr.len() / 2] {
+            bad.push(("sigdata-truncated", good_xdr[..good_xdr.len() - cut].to_vec()));
+        }
+        // a bare byte string instead of the structure
+        bad.push(("sigdata-not-a-structure", Bytes::from_slice(e, &g.signature).to_xdr(e).iter().collect()));
+        for (kind, raw) in bad {
+            let r: Result<bool, Fail> = invoke(e, &c, "verify", args!(e, Bytes::from_slice(e, &g.payload), Bytes::from_slice(e, &g.key), Bytes::from_slice(e, &raw)));
+            rep.evaluations += 1;
+            rep.case(format!("webauthn/{kind}/{}", match &r { Ok(b) => b.to_string(), Err(f) => f.tag() }));
+            rep.check("corrupt", !accepted(&r), &format!("C18/corrupt/webauthn/accepted/{kind}"), || format!("signature data '{kind}' was accepted"));
+        }
+        let r: Result<bool, Fail> = invoke(e, &c, "verify", args!(e, Bytes::from_slice(e, &g.payload), Bytes::from_slice(e, &g.key), Bytes::from_slice(e, &good_xdr)));
+        rep.check("genuine", accepted(&r), "C18/genuine/webauthn/rejected/sigdata-roundtrip", || format!("genuine signature data rejected: {r:?}"));
+    }
     // signed by another key
     let sk2 = loop {
         if let Ok(s) = p256::ecdsa::SigningKey::from_slice(&rng.bytes::<32>()) {
@@ -393,8 +440,73 @@ fn encoder(cfg: &Cfg, rep: &mut Report) {
     rep.end_history();
 }
 
+/// `extract_from_bytes::<N>(data, a..b)`: the N bytes data[a..b] iff b <= len and b - a == N, otherwise
+/// nothing (never a trap): the slice model decides. Only ranges with a <= b are drawn.
+fn extractor(cfg: &Cfg, rep: &mut Report) {
+    use stellar_accounts::verifiers::utils::extract_from_bytes;
+    rep.begin_history(99_001);
+    let mut rng = Rng::for_history(cfg.seed, "C18", cfg.shard, 99_001);
+    let e = Env::default();
+    fn one<const N: usize>(e: &Env, rep: &mut Report, data: &[u8], a: u32, b: u32, form: u32) {
+        let d = Bytes::from_slice(e, data);
+        let len = data.len() as u32;
+        // the four range forms that denote [a, b)
+        let (form_name, r) = match form {
+            0 => ("a..b", std::panic::catch_unwind(std::panic::AssertUnwindSafe(|| extract_from_bytes::<N>(e, &d, a..b)))),
+            1 if b > a => ("a..=b-1", std::panic::catch_unwind(std::panic::AssertUnwindSafe(|| extract_from_bytes::<N>(e, &d, a..=b - 1)))),
+            2 if a == 0 => ("..b", std::panic::catch_unwind(std::panic::AssertUnwindSafe(|| extract_from_bytes::<N>(e, &d, ..b)))),
+            3 if b == len => ("a..", std::panic::catch_unwind(std::panic::AssertUnwindSafe(|| extract_from_bytes::<N>(e, &d, a..)))),
+            _ => return,
+        };
+        rep.evaluations += 1;
+        let want: Option<Vec<u8>> = if b <= len && (b - a) as usize == N { Some(data[a as usize..b as usize].to_vec()) } else { None };
+        rep.case(format!("extract/N={N}/{form_name}/{}/{}", if b > len { "beyond-end" } else if b == len { "to-end" } else { "inside" }, if want.is_some() { "some" } else if ((b - a) as usize) < N { "too-few" } else { "too-many-or-out" }));
+        match r {
+            Err(_) => {
+                rep.check("extract", false, &format!("C18/extract/extract_from_bytes/{form_name}/trapped-instead-of-answering"), || format!("N={N}, {} bytes, range {a}..{b}: {}", data.len(), crate::last_panic()));
+            }
+            Ok(got) => {
+                let got: Option<Vec<u8>> = got.map(|x| x.to_array().to_vec());
+                if want.is_some() {
+                    rep.count("extracts_answered");
+                }
+                rep.check("extract", got == want, &format!("C18/extract/extract_from_bytes/{form_name}/differs-from-slice"), || format!("N={N}, data {data:?}, range {a}..{b}: got {got:?}, the slice model gives {want:?}"));
+            }
+        }
+    }
+    for _ in 0..cfg.pick(3000u32, 200_000) {
+        let len = match rng.below(6) {
+            0 => rng.below(8) as usize,
+            1 => 65,
+            2 => 64 + rng.below(4) as usize,
+            _ => rng.below(140) as usize,
+        };
+        let data: Vec<u8> = (0..len).map(|_| rng.next() as u8).collect();
+        let n = [1usize, 4, 32, 65][rng.idx(4)];
+        let a = match rng.below(3) {
+            0 => 0,
+            _ => rng.below(len as u64 + 2) as u32,
+        };
+        let b = match rng.below(4) {
+            0 => a + n as u32,
+            1 => len as u32,
+            2 => a + (n as u32).saturating_sub(1) + rng.below(3) as u32,
+            _ => a + rng.below(80) as u32,
+        };
+        let b = b.max(a);
+        let form = rng.below(4) as u32;
+        match n {
+            1 => one::<1>(&e, rep, &data, a, b, form),
+            4 => one::<4>(&e, rep, &data, a, b, form),
+            32 => one::<32>(&e, rep, &data, a, b, form),
+            _ => one::<65>(&e, rep, &data, a, b, form),
+        }
+    }
+    rep.end_history();
+}
+
 pub fn run(cfg: &Cfg, rep: &mut Report) {
-    rep.rule = "Per history a fresh P-256 (resp. Ed25519) key pair and 32-byte payload; a genuine assertion built with independent crypto (p256, ed25519-dalek, sha2) must be accepted by the real verifier examples; then single corruptions: every bit of the payload (256), sampled bits of key / signature / authenticator data / client data, all 256 flag bytes re-signed (accept iff UP and UV and not(BS without BE)), client-data shapes (member order, further and nested members, white space; decoys of type / challenge inside other members), type variants, challenge variants (padded, standard alphabet, other payload, truncated, empty, hex, case), client data of 1023/1024/1025/2000 bytes, authenticator data of 33/36/37/120 bytes, payloads of 0/1/31 bytes, another signer; Ed25519 payloads of 0/1/31/33/48/64/100 bytes (genuine accepted, prefix signature and altered tail rejected). Encoder: all inputs of length 0-2 exhaustively (split over shards), random inputs of every length 3..=100, fill patterns. Distinct case = (verifier, corruption kind or flag bits, outcome). Not judged: WebAuthn payloads longer than 32 bytes (documented: first 32 bytes used) and algebraic signature malleability (host behaviour).".into();
+    rep.rule = "Per history a fresh P-256 (resp. Ed25519) key pair and 32-byte payload; a genuine assertion built with independent crypto (p256, ed25519-dalek, sha2) must be accepted by the real verifier examples; then single corruptions: every bit of the payload (256), sampled bits of key / signature / authenticator data / client data, all 256 flag bytes re-signed (accept iff UP and UV and not(BS without BE)), client-data shapes (member order, further and nested members, white space; decoys of type / challenge inside other members), type variants, challenge variants (padded, standard alphabet, other payload, truncated, empty, hex, case), client data of 1023/1024/1025/2000 bytes, authenticator data of 33/36/37/120 bytes, payloads of 0/1/31 bytes, another signer; key data followed by a credential id of 1/16/64/300 bytes (accepted), shifted, cut short or behind another key (rejected); signature data that is empty, random, truncated XDR or XDR of another type (rejected); Ed25519 payloads of 0/1/31/33/48/64/100 bytes (genuine accepted, prefix signature and altered tail rejected). Encoder: all inputs of length 0-2 exhaustively (split over shards), random inputs of every length 3..=100, fill patterns. extract_from_bytes::<1|4|32|65> against the slice model over the four range forms (Some(data[a..b]) iff b <= len and b-a == N, else None, never a trap). Distinct case = (verifier, corruption kind or flag bits, outcome). Not judged: WebAuthn payloads longer than 32 bytes (documented: first 32 bytes used) and algebraic signature malleability (host behaviour).".into();
     let nh = cfg.pick(12u64, 1200);
     for k in 0..nh {
         if cfg.runs(k) {
@@ -407,6 +519,10 @@ pub fn run(cfg: &Cfg, rep: &mut Report) {
     if cfg.runs(99_000) {
         encoder(cfg, rep);
     }
+    if cfg.runs(99_001) {
+        extractor(cfg, rep);
+    }
     rep.floor_on("webauthn_genuine", 3, &["webauthn_genuine_accepted"]);
     rep.floor_on("ed25519_genuine", 1, &["ed25519_genuine_accepted"]);
+    rep.floor_on("extracts_answered", 50, &["extracts_answered"]);
 }
